@@ -5,6 +5,7 @@ import corpus
 import lib
 
 IMPLS = ('debug', 'release')
+KCHANNELS = ('DEC', 'DEC0', 'AVPS', 'TYPE', 'ENC', 'ENCA')
 
 
 class Ctx:
@@ -12,6 +13,9 @@ class Ctx:
         self.prop, self.tier, self.rng, self.runner, self.seed = prop, tier, rng, runner, seed
         self.thorough = tier == 'thorough'
         self.searching = False
+        self.kbudget = 2400 if tier == 'thorough' else 160
+        import random as _r
+        self.krng = _r.Random(seed ^ 0x5eed)
 
         self.boost = 4 if lib.source_changed() else 1
         # the cheap checks get a larger random budget in the quick tier (each stays well under a minute)
@@ -36,6 +40,8 @@ class Report:
         self.notes = {}
         self.exhaustive = None
         self.badcases = 0
+        self.ksample = []         # (case, model result) pairs for the in-kernel cross-check of the executor
+        self.kseen = 0
 
     def coverage(self):
         c = {'evaluations': self.evaluations, 'distinct_nontrivial': len(self.distinct),
@@ -98,6 +104,14 @@ def run_compare(ctx, rep, cases, tags, observe, which=IMPLS, nontrivial=None, ru
             r = res[w][i]
             if observe(c, r) != observe(c, m):
                 rep.disagree(c, w, r, m, tag=tags[i])
+        if c.split('\t', 1)[0] in KCHANNELS and len(c) < 6400:
+            rep.kseen += 1
+            if len(rep.ksample) < ctx.kbudget:
+                rep.ksample.append((c, m))
+            else:
+                j = ctx.krng.randrange(rep.kseen)
+                if j < ctx.kbudget:
+                    rep.ksample[j] = (c, m)
         if len(rep.samples) < 8 and (i % max(1, len(cases) // 8) == 0):
             rep.samples.append({'case': c[:300], 'implementation': res[which[0]][i][:300], 'model': m[:300]})
     return res
